@@ -460,7 +460,12 @@ if __name__ == "__main__":
     from gen_gamma import gen_gamma
     from gen_kernel import gen_kernel
     from gen_cont import gen_cont
-    for name, f in (("cli", main), ("const", gen_consts), ("dissim", gen_dissim), ("gamma", gen_gamma), ("kernel", gen_kernel), ("cont", gen_cont)):
+    from gen_sampler import gen_sampler
+    from gen_cst import gen_cst
+    from gen_fast import gen_fast
+    from gen_ilp import gen_ilp
+    from gen_pool import gen_pool
+    for name, f in (("cli", main), ("const", gen_consts), ("dissim", gen_dissim), ("gamma", gen_gamma), ("kernel", gen_kernel), ("cont", gen_cont), ("sampler", gen_sampler), ("cst", gen_cst), ("fast", gen_fast), ("ilp", gen_ilp), ("pool", gen_pool)):
         try:
             f()
             status.append("%s ok" % name)
